@@ -61,6 +61,8 @@ def memstream_chunk(args):
                 off = c["wlen"][j - 1] if j > 0 else 0
                 cnt = (2 ** 61) if mut["c"] < 0 else mut["c"]
                 cmd["patch"] = {"off": off, "u64": str(cnt)}
+            # every case is read twice: into fresh destinations and into destinations that already hold other data
+            cmd["prefill"] = bool(c.get("_prefill"))
             r = d.send(cmd)
             bad = None
             if r.get("op") in ("died", "exception"):
@@ -259,6 +261,104 @@ def crash_replay(ctx, quick):
     return vlib.validate_trace(ctx, "StateFileTrace", "StateFileTrace.cfg", events, "crash-replay", nexec=nexec, key="protocol-trace-rejected")
 
 
+# ------------------------------------------------------------------ the state file a walker publishes for its peers (spec/ReplicaFile.tla)
+
+REP_CFG = ("colvar {\n  name z\n  width 0.5\n  lowerBoundary -4\n  upperBoundary 4\n  distanceZ {\n    main { atomNumbers 1 }\n    ref { dummyAtom (0,0,0) }\n  }\n}\n"
+           "metadynamics {\n  name m\n  colvars z\n  hillWeight 1.0\n  hillWidth 1.6986436005760382\n  newHillFrequency 1\n  multipleReplicas on\n  replicaID w1\n"
+           "  replicasRegistry reg.txt\n  replicaUpdateFrequency 2\n}\n")
+REP_STATE = "o.colvars.m.w1.state"
+
+
+def rep_writer(wd, nsteps, crash_at=None):
+    """One walker process; returns (file operations, set of complete versions of the published file) or the crash reply."""
+    d = vlib.Drv(cwd=wd)
+    versions = set()
+    try:
+        d.cmd(op="new", natoms=2, prefix="o", restartFreq=2, trajFreq=0, recordFiles=True)
+        r = d.cmd(op="config", text=REP_CFG)
+        if r.get("op") in ("crash", "died"):
+            return r, versions
+        versions.add("ncfg=%d" % len(d.cmd(op="fileops", clear=False)["ops"]))
+        if crash_at is not None:
+            d.cmd(op="crashat", n=crash_at)
+        for i in range(nsteps):
+            r = d.cmd(op="step", pos=[[0, 0, 0.25 + 0.5 * ((i * 3) % 5 - 2)], [0, 0, 0]])
+            if r.get("op") in ("crash", "died"):
+                return r, versions
+            p = os.path.join(wd, REP_STATE)
+            if os.path.exists(p):
+                versions.add(open(p).read())
+        return d.cmd(op="fileops", clear=False), versions
+    finally:
+        d.close()
+
+
+def rep_events(ops):
+    ev = []
+    for o in ops:
+        b = os.path.basename(o["a"])
+        if b == REP_STATE + ".tmp":
+            n = "tmp"
+        elif b == REP_STATE:
+            n = "state"
+        else:
+            continue
+        if o["op"] == "remove":
+            ev.append({"e": "remove", "n": n})
+        elif o["op"] == "open" and n == "tmp":
+            ev.append({"e": "open", "n": n})
+        elif o["op"] == "close_pre" and n == "tmp":
+            ev.append({"e": "write", "n": n})
+        elif o["op"] == "close" and n == "tmp":
+            ev.append({"e": "close", "n": n})
+        elif o["op"] == "rename":
+            ev.append({"e": "rename", "n": n})
+    return ev
+
+
+def replica_protocol(ctx, quick):
+    """The recorded protocol of the published walker state, a real process death at each of its file operations, and
+    what a peer finds under the published name afterwards; validated against ReplicaFileTrace."""
+    r = vlib.tlc("MCReplicaFile", "MCReplicaFile.cfg", workers=4, timeout=600)
+    ctx.add_tlc(r, "ReplicaFile protocol (all crash points, repeated crashes)")
+    if r.violation:
+        ctx.violation("model:replica:" + r.violation, "ReplicaFile.tla violates %s" % r.violation, {"tlc": vlib.counterexample(r)})
+        return
+    base = os.path.join(ctx.workdir, "replica")
+    wd = os.path.join(base, "ref")
+    os.makedirs(wd, exist_ok=True)
+    nsteps = 7
+    ref, versions = rep_writer(wd, nsteps)
+    if ref.get("op") != "fileops":
+        raise vlib.MachineryError("C11 walker reference run failed: %s" % ref)
+    ops = ref["ops"]
+    ncfg = max(int(v[5:]) for v in versions if v.startswith("ncfg="))     # operations performed while the configuration was read
+    versions = {v for v in versions if not v.startswith("ncfg=")}
+    idx = [i + 1 for i, o in enumerate(ops) if os.path.basename(o["a"]) in (REP_STATE, REP_STATE + ".tmp") and i + 1 > ncfg]
+    if len([i for i in idx if ops[i - 1]["op"] == "rename"]) < 2 or not versions:
+        raise vlib.MachineryError("C11 walker reference run did not replace its published state twice")
+    events = [{"e": "Reset"}] + rep_events(ops)
+    nexec = 1
+    pre = ("backup", "rename", "remove", "open_pre", "close_pre")
+    for k in (idx[::2] if quick else idx):
+        wdk = os.path.join(base, "k%d" % k)
+        os.makedirs(wdk, exist_ok=True)
+        rk, _ = rep_writer(wdk, nsteps, crash_at=k)
+        if rk.get("op") != "crash":
+            shutil.rmtree(wdk, ignore_errors=True)
+            continue
+        done = ops[:k - 1] if ops[k - 1]["op"] in pre else ops[:k]
+        p = os.path.join(wdk, REP_STATE)
+        ok = 1 if (os.path.exists(p) and open(p).read() in versions) else 0
+        events += [{"e": "Reset"}] + rep_events(done) + [{"e": "crash"}, {"e": "peer", "ok": ok}]
+        nexec += 1
+        ctx.nontriv(["replica-crash", k])
+        shutil.rmtree(wdk, ignore_errors=True)
+    shutil.rmtree(wd, ignore_errors=True)
+    ctx.sample({"published_state_protocol": [(e["e"], e.get("n")) for e in rep_events(ops)][:12]})
+    vlib.validate_trace(ctx, "ReplicaFileTrace", "ReplicaFileTrace.cfg", events, "published walker state", nexec=nexec, key="replica-protocol-rejected")
+
+
 def truncation(ctx, quick):
     """Every truncation of a text state at a token boundary and of a binary state at a stride of offsets:
     the loader must return (no crash, no hang); a cut strictly inside an object's block must be an error."""
@@ -389,7 +489,9 @@ def run(ctx):
     def on(status, info, beh):
         ctx.violation("memstream-mismatch", "binary stream: %s (items %s, mutation %s)" % (info["fields"][0], json.dumps(beh["items"]), json.dumps(beh["mut"])), {"case": beh})
     vlib.replay_parallel(ctx, cases, memstream_chunk, on, "memstream")
+    vlib.replay_parallel(ctx, [dict(c, _prefill=True) for c in cases], memstream_chunk, on, "memstream (destinations already holding data)")
     truncation(ctx, quick)
+    replica_protocol(ctx, quick)
 
 
 def replay(ctx, path):
